@@ -154,6 +154,12 @@ def document(draw):
                             r[j] = [v, v]
     taken = {t['name'].upper() for t in tables}
     keys = draw(st.lists(Y.keyword.filter(lambda k: k.upper() not in taken), max_size=3, unique_by=lambda k: k.upper()))
+    if keys and draw(st.integers(0, 3)) == 0:
+        # two keywords that differ only in letter case are two keywords
+        k0 = keys[0]
+        variants = [v for v in (k0.upper(), k0.lower(), k0.swapcase()) if v not in keys]
+        if variants:
+            keys.insert(draw(st.integers(0, len(keys))), variants[0])
     pval = st.one_of(
         st.text(alphabet='abXY09 \t;{}\',.:=-_/+*()[]<>|@!?~^&%$"', max_size=12).map(lambda s: s.strip()).filter(
             lambda s: not Y.DOUBLE_BRACE.search(s) and not s.endswith('\\') and s.count('"') % 2 == 0),
